@@ -516,7 +516,30 @@ func getTrafficControllerListFor(name string) []*TrafficShapingController {
 	return tcMap[name]
 }
 
-func calculateReuseIndexFor(r *Rule, oldResTcs []*TrafficShapingController) (equalIdx, reuseStatIdx int) {
+// reservedForLaterRule reports whether the old controller at idx must be kept for a rule that is
+// equal to its rule and comes later in the new list. Equal rules claim the first equal old controllers,
+// so the controller at idx is spare only if enough equal controllers follow it.
+func reservedForLaterRule(idx int, oldResTcs []*TrafficShapingController, laterRules []*Rule) bool {
+	oldRule := oldResTcs[idx].BoundRule()
+	need := 0
+	for _, lr := range laterRules {
+		if oldRule.isEqualsTo(lr) {
+			need++
+		}
+	}
+	if need == 0 {
+		return false
+	}
+	after := 0
+	for _, tc := range oldResTcs[idx+1:] {
+		if tc.BoundRule().isEqualsTo(oldRule) {
+			after++
+		}
+	}
+	return after < need
+}
+
+func calculateReuseIndexFor(r *Rule, oldResTcs []*TrafficShapingController, laterRules []*Rule) (equalIdx, reuseStatIdx int) {
 	// the index of equivalent rule in old traffic shaping controller slice
 	equalIdx = -1
 	// the index of statistic reusable rule in old traffic shaping controller slice
@@ -537,6 +560,10 @@ func calculateReuseIndexFor(r *Rule, oldResTcs []*TrafficShapingController) (equ
 			// had find reuse rule.
 			continue
 		}
+		if reservedForLaterRule(idx, oldResTcs, laterRules) {
+			// an unchanged rule later in the list keeps this controller (state and statistics)
+			continue
+		}
 		reuseStatIdx = idx
 	}
 	return equalIdx, reuseStatIdx
@@ -545,12 +572,12 @@ func calculateReuseIndexFor(r *Rule, oldResTcs []*TrafficShapingController) (equ
 // buildResourceTrafficShapingController builds TrafficShapingController slice from rules. the resource of rules must be equals to res
 func buildResourceTrafficShapingController(res string, rulesOfRes []*Rule, oldResTcs []*TrafficShapingController) []*TrafficShapingController {
 	newTcsOfRes := make([]*TrafficShapingController, 0, len(rulesOfRes))
-	for _, rule := range rulesOfRes {
+	for i, rule := range rulesOfRes {
 		if res != rule.Resource {
 			logging.Error(errors.Errorf("unmatched resource name expect: %s, actual: %s", res, rule.Resource), "Unmatched resource name in flow.buildResourceTrafficShapingController()", "rule", rule)
 			continue
 		}
-		equalIdx, reuseStatIdx := calculateReuseIndexFor(rule, oldResTcs)
+		equalIdx, reuseStatIdx := calculateReuseIndexFor(rule, oldResTcs, rulesOfRes[i+1:])
 
 		// First check equals scenario
 		if equalIdx >= 0 {
